@@ -57,6 +57,12 @@ class Driver:
         self.done_epoch_actions = False
         self.script = list(w.scenario.get("script", []))
         self.triggers = []
+        # per-run user behaviour, derived from the scenario (not from the run-time Chooser)
+        import hashlib
+
+        h = hashlib.blake2b(repr(sorted(w.scenario.get("env", {}).items())).encode(), digest_size=2).digest()
+        self.early = h[0] % 2 == 0
+        self.early_delay = (0.0, 1.0, 10.0, 100.0)[h[1] % 4]
 
     def start(self):
         w = self.w
@@ -98,11 +104,28 @@ class Driver:
         else:
             w.at(w.t0 + float(u["at"]), fire, "user")
 
+    def _maybe_early_recovery(self):
+        """The user notices that every batch has ended (squeue empty or only finished states) and
+        runs the documented recovery right away instead of waiting until the scheduler has
+        forgotten the batches."""
+        w = self.w
+        if any(v.alive for v in w.vprocs) or w.slurm.active_of():
+            return
+        if any(j.state == "COMPLETING" for j in w.slurm.order if not j.foreign):
+            return
+        st = self.status()
+        if st is None or st.get("is_complete"):
+            return
+        self.quiescent(early=True)
+
     def on_record(self, rec):
         """Relative triggers: fire a user command after the n-th record of a kind."""
+        kind = rec[2]
+        if kind == "slurm" and self.early and rec[4].get("new") in ("COMPLETED", "<purged>") \
+                and type(self).quiescent is Driver.quiescent and self.prof.get("fault_free", True):
+            self.w.after(self.early_delay, self._maybe_early_recovery, "user")
         if not self.triggers:
             return
-        kind = rec[2]
         for t in self.triggers:
             if t["done"]:
                 continue
@@ -131,7 +154,7 @@ class Driver:
         except (OSError, ValueError):
             return None
 
-    def quiescent(self):
+    def quiescent(self, early=False):
         """Called when nothing is runnable and no timer is pending.  Returns True if it
         started something."""
         w = self.w
@@ -151,7 +174,9 @@ class Driver:
             limit = self.max_recovery
         if len(self.recoveries) >= limit + 3:
             return False
-        alt = len(self.recoveries) % 2 == 1 and self.prof.get("recovery_show_status", True)
+        # (show-status offers the recovery only once the scheduler has forgotten the batches, so the
+        # early user runs try-submit-jobs directly)
+        alt = not early and len(self.recoveries) % 2 == 1 and self.prof.get("recovery_show_status", True)
         if alt:
             argv = ["jade", "show-status", "-o", w.output, "-n"]
         else:
